@@ -15,8 +15,12 @@ if [ -d /verif/build/sdk ]; then
   [ -f /verif/build/libsdk.a ] && cp -a /verif/build/libsdk.a "$M/build/"
   find "$M/build" -name '*.d' -print0 | xargs -0 sed -i "s#/repo/#$M/#g; s#/verif/build/#$M/build/#g"
 fi
-cd /verif
-VERIF_REPO="$M" VERIF_BUILD="$M/build" VERIF_REPLAY_DIR="$M/replays" VERIF_EVIDENCE_DIR="$M/evidence" bin/check "$PROP" "$TIER"
+# the machinery itself is snapshotted too, so /verif can be edited while a mutant run is going on
+mkdir -p "$M/verif"
+cp -a /verif/sim /verif/engines /verif/bin /verif/Makefile /verif/KNOWN_FINDINGS.txt "$M/verif/"
+find "$M/build" -name '*.d' -print0 2>/dev/null | xargs -0 -r sed -i "s#/verif/sim/#$M/verif/sim/#g; s#/verif/engines/#$M/verif/engines/#g"
+cd "$M/verif"
+VERIF_HOME="$M/verif" VERIF_REPO="$M" VERIF_BUILD="$M/build" VERIF_REPLAY_DIR="$M/replays" VERIF_EVIDENCE_DIR="$M/evidence" bin/check "$PROP" "$TIER"
 rc=$?
 if [ -n "${KEEP_REPLAYS_DIR:-}" ] && [ -d "$M/replays" ]; then mkdir -p "$KEEP_REPLAYS_DIR"; cp "$M"/replays/*.json "$KEEP_REPLAYS_DIR"/ 2>/dev/null; fi
 if [ -d "$M/replays" ]; then
